@@ -429,6 +429,61 @@ def run(tier, replay=None):
                               k_, rc2, json.dumps(outs_e)[:120], json.dumps(ref_e)[:120], tail),
                           "replay": {"program.mro": ce.mro}})
         ce.cleanup()
+    # cluster mode, the real mrp: a submit command that waits for the job (qsub -sync y); mrp is
+    # killed outright while it runs, the job has finished by then; restart in the same job mode
+    rootq = procdrv.build_cluster_root(root)
+    TARGETS = [("chain", "/ps/TOP/B/fork0/chnk0"), ("chain", "/ps/TOP/A/fork0/chnk0"),
+               ("split2", "/ps/TOP/S/fork0/join"), ("split2", "/ps/TOP/S/fork0/chnk1"),
+               ("split2", "/ps/TOP/S/fork0/split"), ("map_dyn2", "/ps/TOP/A/fork1/chnk0")]
+    if not thorough:
+        TARGETS = TARGETS[:4]
+    byname = {p["name"]: p for p in progs}
+
+    def submit_kill(t):
+        pname, pat = t
+        p_ = byname[pname]
+        wd_ = os.path.join(base, "q_%s_%s" % (pname, pat.replace("/", "_")))
+        c_ = procdrv.Cycle(rootq, wd_, p_, sem[pname], pname + "#submitkill", extra_args=["--jobmode=verifq", "--maxjobs=3"])
+        c_.env_extra = {"VERIF_KILL_ON_SUBMIT": pat, "VERIF_KILL_ONCE": os.path.join(wd_, "killed")}
+        rc1, _ = c_.run(timeout=120)
+        evs1 = c_.events()
+        killed = os.path.isdir(os.path.join(wd_, "killed"))
+        tjobs = {e.get("job") for e in evs1 if e.get("ev") == "StageBegin" and (e.get("md") or "").startswith(pat[len("/ps/"):])}
+        done = [e for e in evs1 if e.get("ev") == "StageEnd" and e.get("outcome") == "ok" and e.get("job") in tjobs]
+        r = {"program": pname, "job_directory": pat, "mrp_killed_in_submit": killed, "job_completed_before_kill": bool(done),
+             "first_exit": str(rc1)}
+        if not killed or not done or rc1 == 0:
+            c_.cleanup()
+            return r, None
+        c_.remove_lock()
+        rc2, _ = c_.run(timeout=180)
+        evs2 = c_.events()[len(evs1):]
+        again = [e for e in evs2 if e.get("ev") == "StageBegin" and e.get("job") in tjobs]
+        outs_ = c_.top_outs()
+        r.update({"restart_exit": str(rc2), "executed_again": bool(again), "outputs_equal": outs_ == refs[pname][1]})
+        v = None
+        tail = ""
+        try:
+            tail = open(os.path.join(wd_, "mrp.out"), errors="replace").read()[-400:].replace("\n", " ")
+        except OSError:
+            pass
+        if again:
+            v = "the job %s, whose completion had been recorded before mrp was killed (inside the submit command, cluster mode), was executed again after the restart" % done[0].get("job")
+        elif rc2 != 0 or outs_ != refs[pname][1]:
+            v = "after mrp was killed inside the submit command of %s (cluster mode) and restarted, mrp ended with status %s, outputs %s, reference %s; %s" % (
+                done[0].get("job"), rc2, json.dumps(outs_)[:120], json.dumps(refs[pname][1])[:120], tail)
+        c_.cleanup()
+        return r, v
+    with ThreadPoolExecutor(6) as ex:
+        sk = list(ex.map(submit_kill, [t for t in TARGETS if t[0] in byname]))
+    submit_report = [r for r, _ in sk]
+    if not any(r.get("restart_exit") is not None for r in submit_report):
+        raise vlib.Infra("no cluster-mode run was killed inside the submit command: %s" % json.dumps(submit_report)[:600])
+    for r, v in sk:
+        if v:
+            viols.append({"prop": "C05", "key": "C05:%s:SIGKILL:submit:%s" % (r["program"], r["job_directory"]),
+                          "what": "C05 program %s: %s" % (r["program"], v), "replay": {"program.mro": mro_.render(byname[r["program"]], stage_lang="comp"),
+                                                                                       "case.txt": json.dumps(r)}})
     mine = [v for v in viols if v["prop"] == "C05"]
     others = sorted({v["prop"] for v in viols if v["prop"] != "C05"})
     if others:
@@ -441,6 +496,7 @@ def run(tier, replay=None):
         "states": mstates + tlc.distinct, "transitions": mtrans + tlc.generated,
         "traces_validated_against_impl": len(cases),
         "join_inputs_compared_with_uninterrupted_run": ncdefs,
+        "cluster_mode_kill_inside_submit_command": submit_report,
         "restarts_of_archived_pipestances": zip_report, "invocation_with_environment_variable": env_report,
         "samples": [{"program": cases[0][0]["name"], "effect": cases[0][1], "signal": cases[0][2],
                      "exit_status": [str(results[0]["rc1"]), str(results[0]["rc2"])],
